@@ -19,14 +19,21 @@
    deletion markers ([C13g_fault_success_whole_effect], [C13g_fault_success_markers]; non-vacuous:
    [C13g_swallowed_marker_removal]); for every call other than delete_object / delete_metadata(pid,
    None), from ANY world and for PERSISTENT faults too, success means the run WAS the fault-free
-   run ([C13g_one_off_success_identical], [C13g_persistent_success_identical]).
-   NOT proved in general (menu only): (F2) when the flock itself fails; (F3') for PERSISTENT
-   faults in delete_object / delete_metadata(pid, None); (F4) for a pid that is already bound, and for
-   store_object with a stream source or supplied size / checksum.  For PERSISTENT faults (F4) is false: witness
+   run ([C13g_one_off_success_identical], [C13g_persistent_success_identical]).  PERSISTENT faults,
+   EVERY call (FaultPersist.v): the same whole-effect statement ([C13g_persistent_fault_success_markers],
+   [C13g_persistent_fault_success_whole_effect], both modes in one: [C13g_any_fault_success_whole_effect];
+   non-vacuous: [C13g_persistent_swallowed_marker_removal]).
+   (F4'), ONE-OFF faults, pid bound OR NOT, every variant of store_object / tag_object (FaultBound.v):
+   a call that raises leaves no lock and leaves the pid CONSISTENT — its reference and every cid list
+   as before the call, or no reference and in no list; never half-bound
+   ([C13g_one_off_fault_pid_consistent]; non-vacuous: [C13g_bound_pid_fault_consistent]).
+   NOT proved in general (menu only): (F2) when the flock itself fails; the "can be stored again at
+   once" retry for a pid that was already bound, and for store_object with a stream source or supplied
+   size / checksum.  For PERSISTENT faults (F4) is false: witness
    [C13g_persistent_fault_defeats_rollback], and the full statement [C13_general_statement] is
    refuted by it ([C13g_statement_false]). *)
 From HS Require Import Base PyVal FS Ops Spec Sched Refine CrashFault Integrity CrashGeneral FaultGeneral
-  FaultSuccess.
+  FaultSuccess FaultPersist FaultBound.
 From HS Require Bracket Indep.
 
 (* ---------- the fault semantics covered ---------- *)
@@ -402,3 +409,111 @@ Example C13g_swallowed_marker_removal :
   (run_seq w1 (api (CDelete 1)) = Some (mkWorld [] [], Val VUnit)).
 Proof. exact swallowed_marker_removal. Qed.
 Print Assumptions C13g_swallowed_marker_removal.
+
+(* ---------- (F3') PERSISTENT faults, every call (FaultPersist.v) ---------- *)
+
+(* EVERY call (delete_object and delete_metadata(pid, None) included), every PERSISTENT fault, every
+   world whose file map is sorted: success => the fault-free call gives the same answer, and the
+   final worlds have the same locks and the same files except deletion markers.  (A persistent
+   failure sticks to the address of the marker whose removal failed; nothing that runs afterwards
+   on a path to success has that destination, except further swallowed removals.) *)
+Theorem C13g_persistent_fault_success_markers :
+  forall (w : world) (c : call) (k : nat) (w' : world) (v : value),
+    Indep.fsorted (fs w) ->
+    run_fault (FWait k true) w (api c) = Some (w', Val v) ->
+    exists w0 : world, run_seq w (api c) = Some (w0, Val v) /\
+      locks w' = locks w0 /\
+      forall a : addr, (forall x : addr, a <> ADel x) -> lookup a (fs w') = lookup a (fs w0).
+Proof. exact persistent_fault_success_markers. Qed.
+Print Assumptions C13g_persistent_fault_success_markers.
+
+Theorem C13g_persistent_fault_success_whole_effect :
+  forall (w : world) (c : call) (k : nat) (w' : world) (v : value),
+    Indep.fsorted (fs w) ->
+    run_fault (FWait k true) w (api c) = Some (w', Val v) ->
+    exists w0 : world, run_seq w (api c) = Some (w0, Val v) /\
+      locks w' = locks w0 /\
+      forall a : addr, permanent a = true -> lookup a (fs w') = lookup a (fs w0).
+Proof. exact persistent_fault_success_whole_effect. Qed.
+Print Assumptions C13g_persistent_fault_success_whole_effect.
+
+(* C13, first clause, in one statement: every call, every fault position, BOTH modes *)
+Theorem C13g_any_fault_success_whole_effect :
+  forall (w : world) (c : call) (k : nat) (pers : bool) (w' : world) (v : value),
+    Indep.fsorted (fs w) ->
+    run_fault (FWait k pers) w (api c) = Some (w', Val v) ->
+    exists w0 : world, run_seq w (api c) = Some (w0, Val v) /\
+      locks w' = locks w0 /\
+      forall a : addr, permanent a = true -> lookup a (fs w') = lookup a (fs w0).
+Proof. exact any_fault_success_whole_effect. Qed.
+Print Assumptions C13g_any_fault_success_whole_effect.
+
+Theorem C13g_any_fault_success_whole_effect_reachable :
+  forall (h : list call) (w : world) (rs : list (outcome value)) (c : call) (k : nat) (pers : bool)
+         (w' : world) (v : value),
+    run_history empty_world h = Some (w, rs) ->
+    run_fault (FWait k pers) w (api c) = Some (w', Val v) ->
+    exists w0 : world, run_seq w (api c) = Some (w0, Val v) /\
+      locks w' = locks w0 /\
+      forall a : addr, permanent a = true -> lookup a (fs w') = lookup a (fs w0).
+Proof. exact any_fault_success_whole_effect_reachable. Qed.
+Print Assumptions C13g_any_fault_success_whole_effect_reachable.
+
+(* non-vacuity: delete_object(1), the object has a metadata document; fault site 7 = the removal of
+   the marker of the pid reference fails PERSISTENTLY: swallowed; the other markers are removed,
+   delete_metadata(1, None) removes the document; success, that one marker stays *)
+Example C13g_persistent_swallowed_marker_removal :
+  let w1 := mkWorld [(AObj 7, CData 7 1 1); (APidRef 1, CCid 7); (ACidRef 7, CLines [1]);
+                     (AMeta 1 0, CData 5 1 1)] [] in
+  Indep.fsorted (fs w1) /\
+  (site_op 7 w1 (api (CDelete 1)) = Some (Remove (ADel (APidRef 1)))) /\
+  (run_fault (FWait 7 true) w1 (api (CDelete 1)) =
+     Some (mkWorld [(ADel (APidRef 1), CCid 7)] [], Val VUnit)) /\
+  (run_seq w1 (api (CDelete 1)) = Some (mkWorld [] [], Val VUnit)).
+Proof. exact persistent_swallowed_marker_removal. Qed.
+Print Assumptions C13g_persistent_swallowed_marker_removal.
+
+(* ---------- (F4') ONE-OFF faults: the pid is never half-bound (FaultBound.v) ---------- *)
+
+(* store_object(pid, ...) — every source, every size / checksum argument — or tag_object(pid, cid),
+   from EVERY state satisfying the representation invariant (the pid bound or not), every one-off
+   fault position: if the call raises, no lock is left and
+   - the pid's reference and every cid list are as before the call (its earlier binding, or the
+     absence of one, is intact), or the pid has no reference and is listed in no cid list;
+   - so the pid is consistent: no reference and in no list, or a reference naming c' and listed in
+     exactly the list of c'. *)
+Theorem C13g_one_off_fault_pid_consistent :
+  forall (w0 : world) (c : call) (p : pid) (k : nat) (w : world) (e : exn),
+    Inv w0 ->
+    (match c with CStore _ _ _ _ _ _ | CTag _ _ => true | _ => false end) = true ->
+    call_pid c = Some p ->
+    run_fault (FWait k false) w0 (api c) = Some (w, Exn e) ->
+    locks w = [] /\
+    ((lookup (APidRef p) (fs w) = lookup (APidRef p) (fs w0) /\
+      forall k' : cid, lookup (ACidRef k') (fs w) = lookup (ACidRef k') (fs w0))
+     \/
+     (lookup (APidRef p) (fs w) = None /\
+      forall (k' : cid) (l : list pid), lookup (ACidRef k') (fs w) = Some (CLines l) -> ~ In p l)) /\
+    ((lookup (APidRef p) (fs w) = None /\
+      forall (k' : cid) (l : list pid), lookup (ACidRef k') (fs w) = Some (CLines l) -> ~ In p l)
+     \/
+     exists c' : cid,
+       lookup (APidRef p) (fs w) = Some (CCid c') /\
+       (exists l : list pid, lookup (ACidRef c') (fs w) = Some (CLines l) /\ In p l) /\
+       forall (k' : cid) (l : list pid),
+         lookup (ACidRef k') (fs w) = Some (CLines l) -> In p l -> k' = c').
+Proof. exact one_off_fault_pid_consistent. Qed.
+Print Assumptions C13g_one_off_fault_pid_consistent.
+
+(* non-vacuity, store {1 -> 7}: (a) tag_object(1, 8), one-off failure of the first makedirs: raises,
+   the roll-back refuses (the pid is bound to another cid), the binding is intact; (b) tag_object(1, 7)
+   with the same failure: the roll-back removes the binding, pid 1 is unbound (the FINDING above);
+   (c) store_object(1, stream, mismatching size), failure of the temp-file creation: binding intact *)
+Example C13g_bound_pid_fault_consistent :
+  let w1 := mkWorld [(AObj 7, CData 7 1 1); (APidRef 1, CCid 7); (ACidRef 7, CLines [1])] [] in
+  Inv w1 /\
+  run_fault (FWait 0 false) w1 (api (CTag 1 8)) = Some (w1, Exn EValueError) /\
+  run_fault (FWait 0 false) w1 (api (CTag 1 7)) = Some (mkWorld [(AObj 7, CData 7 1 1)] [], Exn EOSError) /\
+  run_fault (FWait 0 false) w1 (api (CStore (Some 1) SrcStream 8 1 VSzBad VCkNone)) = Some (w1, Exn EOSError).
+Proof. exact bound_pid_fault_consistent. Qed.
+Print Assumptions C13g_bound_pid_fault_consistent.
